@@ -571,12 +571,14 @@ class Executor:
                 else:
                     raise Unsupported("ite over different refs")
             return Ref(a.cell, proj, a.mut, a.ty)
-        if isinstance(a, VecV) and isinstance(b, VecV):
+        if isinstance(a, VecV) and isinstance(b, VecV) and a.cap == b.cap:
             v = VecV(a.elem_ty, a.cap, self.ite(c, a.len, b.len))
             for k in range(a.cap):
                 if a.elems[k] is None and b.elems[k] is None:
                     continue
-                raise Unsupported("ite over materialised vectors")
+                if a.elems[k] is None or b.elems[k] is None:
+                    raise Unsupported("ite over partially materialised vectors")
+                v.elems[k] = self.ite(c, a.elems[k], b.elems[k])
             return v
         raise Unsupported("ite over %r / %r" % (a, b))
 
@@ -1179,6 +1181,16 @@ class Executor:
         #    arbitrary value of their type; both are logged as events.
         if body is not None:
             cname = self.canon(body)
+            runners = getattr(self, "closure_runners", None)
+            if runners and any(r.search(cname) for r in runners):
+                # the callee only runs its closure argument (blocking-pool / in-place boundary): run the closure
+                from . import summaries as _S
+                rt0 = body.ret_ty
+                if "{async fn body" in rt0 or "{async block" in rt0:
+                    fut = FutureV(cname, [args[0]], None, "closure_future")
+                    return self.finish_call(st, frame, t, [(fut, None)], ret_bb)
+                st.events.append(("run_closure", cname, None, None))
+                return self.finish_call(st, frame, t, _S.call_value(self, st, frame, args[0], [], t.dest, ret_bb), ret_bb)
             self.stats["calls_havoc"][cname] = self.stats["calls_havoc"].get(cname, 0) + 1
             rt = body.ret_ty
             if "{async fn body" in rt or "{async block" in rt or "dyn futures::Future" in rt or "dyn Future" in rt \
